@@ -148,4 +148,19 @@ for _k, _c in CHECKS.items():
         _c["technique"] += " + source-to-Gallina translation of the core bodies with machine-checked equality to the model"
     _c["note"] += " Also trusted: the translators tools/extract_{consts,layouts,purity,steps}.py (their rendering of Rust syntax and integer / bounds semantics)."
 
+# implementation-level oracles added by the later seeded rounds (they turn a broken tie into a concrete failing input)
+_LATE_ORACLES = {
+    "C02": "a process-history oracle (the process acts as a client under other announced groups between server steps; the server step is compared with textbook values)",
+    "C05": "runs of one verdict (R rejected attempts in a row, then a correct one; A accepted, then a wrong one; R and A around every power of two up to 1024, 65536 in the thorough tier)",
+    "C07": "typed traffic through a receive buffer (headers with sizes around every boundary and payload, bytes arriving in pieces, Read-based call retried while incomplete or array call, split half and combined object, both ends in step afterwards), refusing writers, and objects for a structurally related second key built after a first one",
+    "C08": "typed traffic through a receive buffer (headers with sizes around every boundary and payload, bytes arriving in pieces, Read-based call retried while incomplete or array call, split half and combined object, both ends in step afterwards), refusing writers, and objects for a structurally related second key built after a first one",
+    "C09": "typed traffic through a receive buffer, refusing writers, and a construction-history oracle (a second pair of objects for a structurally related key built after a first pair, compared with the independent RC4 / HMAC stream)",
+    "C11": "typed traffic through a receive buffer for all three modules, with header sizes drawn around every boundary on the Read path too",
+    "C12": "typed traffic through a receive buffer for all three modules with split half and combined object side by side; the two own-body methods of the combined objects are translated and proved equal to the half's method (C12_source_own_bodies)",
+    "C14": "a generous set-up tape so that the reconnect loop (2000 attempts on one session in the quick tier) is reached whatever the implementation draws; the API bodies are obligations of this property too",
+    "C16": "salts drawn in related pairs (equal, reversed, one bit apart)",
+}
+for _k, _t in _LATE_ORACLES.items():
+    CHECKS[_k]["text"] += " Implementation-level oracles added by the seeded rounds: " + _t + "."
+
 NOT_APPLICABLE = [{"property_id": p, "reason": "not yet claimed: the Coq model, theorems and correspondence for this property are still being built (see DESIGN.md §7a); no check is registered until its tie to the code is in place"} for p in ALL if p not in DONE]
